@@ -472,6 +472,12 @@ class Machine(object):
             rc = self.resolve_trait_call(callee)
             if rc is not None:
                 callee = rc
+            elif callee.get("trait") and not callee.get("resolved") and callee.get("self_ty"):
+                # a foreign implementation named by the substituted Self type, if the harness models it
+                cand = "<%s as %s>::%s" % (callee["self_ty"], callee["trait"], callee.get("name"))
+                if cand in self.hooks or cand in builtins.TABLE:
+                    callee = dict(callee)
+                    callee["resolved"] = cand
         d = callee.get("def")
         r = callee.get("resolved")
         for p in (r, d):
@@ -579,6 +585,8 @@ class Machine(object):
                 if isinstance(c, bool):
                     return self.decide(v) == c
                 return self.decide(Term("eq", v, c))
+            if isinstance(v, str) and len(v) == 1 and isinstance(c, int) and not isinstance(c, bool):
+                return ord(v) == c          # char constant pattern (dumped as its scalar value)
             return v == c
         if k == "range":
             lo, hi, incl = parse_range(pat["text"])
